@@ -15,8 +15,9 @@
 void create () { oid = "m"; }
 
 private object connect (int port) { return new ("/vuser.c"); }
-// variants (`cfg noroot` / `cfg nobb`): /c20/master_noroot.c, /c20/master_nobb.c, /c20/master_nobb_noroot.c define these
-// macros and include this file: set_master then finds no get_root_uid() (master keeps "NONAME" / 0) / no get_bb_uid()
+// variants (`cfg noroot` / `cfg nobb` / `cfg novb`): the plugin writes /c20/master_<flags>.c files that define these macros
+// and include this file: set_master then finds no get_root_uid() (master keeps "NONAME" / 0) / no get_bb_uid(); bind()
+// finds no valid_bind() (a NULL result refuses)
 // `pol root <name>` / `pol bb <name>` change the answers (kept in the registry object, which does not exist yet when the
 // first master is loaded): a master reloaded later (`dest,m`) announces another root / backbone uid
 #ifndef C20_NO_ROOT
@@ -100,6 +101,7 @@ mixed valid_seteuid (object ob, string uid) {
 
 // valid_bind(doer, old owner, new owner) for bind(): answer chosen by (doer oid, new owner oid) with `*` wildcards
 // (`pol vb <doer> <new owner> <spec>`), logged as `VL vb <doer> <new owner> <spec>`
+#ifndef C20_NO_VB
 mixed valid_bind (object doer, object owner, object victim) {
   string d, n, spec;
   d = REG->oid_of (doer);
@@ -112,3 +114,4 @@ mixed valid_bind (object doer, object owner, object victim) {
   VL ("vb " + d + " " + n + " " + spec);
   return answer (spec);
 }
+#endif
